@@ -972,6 +972,123 @@ fn gen_threads(run: &mut Run, seed: u64, thorough: bool) {
     run.add("threads", "stateless threads".into(), sc);
 }
 
+/// A cipher of a custom resolver that overrides `Cipher::rekey` (Noise 4.2 lets a cipher define its own REKEY): the
+/// wrapped default cipher with `REKEY(k) = ENCRYPT(k, 2^64-1, "", 0x11^32)[..32]`.
+struct OwnRekeyCipher {
+    inner: Box<dyn snow::types::Cipher>,
+    key: [u8; 32],
+}
+impl snow::types::Cipher for OwnRekeyCipher {
+    fn name(&self) -> &'static str {
+        self.inner.name()
+    }
+    fn set(&mut self, key: &[u8; 32]) {
+        self.key = *key;
+        self.inner.set(key);
+    }
+    fn encrypt(&self, nonce: u64, authtext: &[u8], plaintext: &[u8], out: &mut [u8]) -> usize {
+        self.inner.encrypt(nonce, authtext, plaintext, out)
+    }
+    fn decrypt(&self, nonce: u64, authtext: &[u8], ciphertext: &[u8], out: &mut [u8]) -> Result<usize, snow::Error> {
+        self.inner.decrypt(nonce, authtext, ciphertext, out)
+    }
+    fn rekey(&mut self) {
+        let mut out = [0u8; 48];
+        self.inner.encrypt(u64::MAX, &[], &[0x11u8; 32], &mut out);
+        self.key.copy_from_slice(&out[..32]);
+        let k = self.key;
+        self.inner.set(&k);
+    }
+}
+struct OwnRekeyResolver;
+impl snow::resolvers::CryptoResolver for OwnRekeyResolver {
+    fn resolve_rng(&self) -> Option<Box<dyn snow::types::Random>> {
+        snow::resolvers::DefaultResolver.resolve_rng()
+    }
+    fn resolve_dh(&self, c: &snow::params::DHChoice) -> Option<Box<dyn snow::types::Dh>> {
+        snow::resolvers::DefaultResolver.resolve_dh(c)
+    }
+    fn resolve_hash(&self, c: &snow::params::HashChoice) -> Option<Box<dyn snow::types::Hash>> {
+        snow::resolvers::DefaultResolver.resolve_hash(c)
+    }
+    fn resolve_cipher(&self, c: &snow::params::CipherChoice) -> Option<Box<dyn snow::types::Cipher>> {
+        Some(Box::new(OwnRekeyCipher { inner: snow::resolvers::DefaultResolver.resolve_cipher(c)?, key: [0; 32] }))
+    }
+}
+
+/// C16 / C15 (implementation only: the model's REKEY is the specification's default): with a cipher that brings its
+/// own `rekey`, the stateless message under nonce n equals the n-th stateful message also AFTER rekeys, the two modes
+/// interoperate, and the key after a rekey is the cipher's own REKEY of the old one.
+fn gen_own_rekey(run: &mut Run, seed: u64) {
+    let mut sc = Sc::new();
+    sc.ex.comment("a custom cipher with its own rekey: stateless = stateful after rekeys (implementation only)");
+    let mut r = Rng64(seed ^ 0x6f776e726b);
+    for name in ["Noise_NN_25519_ChaChaPoly_SHA256", "Noise_NN_25519_AESGCM_BLAKE2s"] {
+        let mk = |initiator: bool| {
+            let params: snow::params::NoiseParams = name.parse().unwrap();
+            let ek = [if initiator { 5u8 } else { 6u8 }; 32];
+            let b = snow::Builder::with_resolver(params, Box::new(OwnRekeyResolver)).fixed_ephemeral_key_for_testing_only(&ek);
+            if initiator { b.build_initiator().unwrap() } else { b.build_responder().unwrap() }
+        };
+        let pair = || {
+            let (mut i, mut rr) = (mk(true), mk(false));
+            let mut buf = [0u8; 200];
+            let mut buf2 = [0u8; 200];
+            let n = i.write_message(&[], &mut buf).unwrap();
+            rr.read_message(&buf[..n], &mut buf2).unwrap();
+            let n = rr.write_message(&[], &mut buf).unwrap();
+            i.read_message(&buf[..n], &mut buf2).unwrap();
+            (i, rr)
+        };
+        let r0 = std::panic::catch_unwind(std::panic::AssertUnwindSafe(|| {
+            let (i1, r1) = pair();
+            let (i2, r2) = pair();
+            let (mut ti, mut tr) = (i1.into_transport_mode().unwrap(), r1.into_transport_mode().unwrap());
+            let (mut si, mut sr) = (i2.into_stateless_transport_mode().unwrap(), r2.into_stateless_transport_mode().unwrap());
+            let mut problems: Vec<String> = vec![];
+            let mut n_i = 0u64;
+            for step in 0..12 {
+                if step % 3 == 1 {
+                    // synchronised rekey of the initiator-to-responder direction, in both modes
+                    ti.rekey_outgoing();
+                    tr.rekey_incoming();
+                    si.rekey_outgoing();
+                    sr.rekey_incoming();
+                }
+                let p = vec![step as u8; 5 + step];
+                let (mut m1, mut m2) = (vec![0u8; 100], vec![0u8; 100]);
+                let l1 = ti.write_message(&p, &mut m1).unwrap_or(0);
+                let l2 = si.write_message(n_i, &p, &mut m2).unwrap_or(0);
+                if l1 == 0 || m1[..l1] != m2[..l2] {
+                    problems.push(format!("message {n_i} after {} rekeys: the stateless message differs from the stateful sender's", (step + 2) / 3));
+                }
+                let mut out = vec![0u8; 100];
+                // cross-mode delivery: stateful sender to stateless receiver and the other way round
+                if sr.read_message(n_i, &m1[..l1], &mut out).ok() != Some(p.len()) {
+                    problems.push(format!("message {n_i}: a stateless receiver rejects the stateful sender's message after rekeys"));
+                }
+                if tr.read_message(&m2[..l2], &mut out).ok() != Some(p.len()) {
+                    problems.push(format!("message {n_i}: a stateful receiver rejects the stateless sender's message after rekeys"));
+                }
+                n_i += 1;
+            }
+            problems
+        }));
+        match r0 {
+            Ok(problems) => {
+                for p in problems.iter().take(3) {
+                    sc.viol("C16", format!("{name} with a cipher that overrides Cipher::rekey: {p}"));
+                    sc.viol("C15", format!("{name} with a cipher that overrides Cipher::rekey: {p}"));
+                }
+            },
+            Err(_) => sc.viol("C10", format!("{name}: panic with a cipher that overrides Cipher::rekey")),
+        }
+        sc.count("ownrekey.sessions");
+        let _ = r.next();
+    }
+    run.add("ownrekey", "custom cipher with its own rekey".into(), sc);
+}
+
 fn run_prop(prop: &str, thorough: bool, seed: u64) -> Run {
     let mut run = Run::default();
     match prop {
@@ -993,7 +1110,11 @@ fn run_prop(prop: &str, thorough: bool, seed: u64) -> Run {
             gen_hs(&mut run, prop, seed, thorough);
             gen_tamper_continue(&mut run, seed, thorough);
         },
-        "C04" | "C05" | "C09" | "C15" => gen_transport(&mut run, prop, seed, thorough),
+        "C04" | "C05" | "C09" => gen_transport(&mut run, prop, seed, thorough),
+        "C15" => {
+            gen_transport(&mut run, prop, seed, thorough);
+            gen_own_rekey(&mut run, seed);
+        },
         "C06" | "C07" => {
             gen_hs(&mut run, prop, seed, thorough);
             gen_transport(&mut run, prop, seed, thorough);
@@ -1029,6 +1150,7 @@ fn run_prop(prop: &str, thorough: bool, seed: u64) -> Run {
         "C16" => {
             gen_transport(&mut run, prop, seed, thorough);
             gen_threads(&mut run, seed, thorough);
+            gen_own_rekey(&mut run, seed);
         },
         "C17" => {
             gen_hs(&mut run, prop, seed, thorough);
